@@ -2,12 +2,14 @@ module verifharness
 
 go 1.18
 
-require github.com/jirenius/go-res v0.0.0
+require (
+	github.com/jirenius/go-res v0.0.0
+	github.com/nats-io/nats.go v1.10.0
+)
 
 require (
 	github.com/jirenius/timerqueue v1.0.0 // indirect
 	github.com/nats-io/jwt v0.3.2 // indirect
-	github.com/nats-io/nats.go v1.10.0 // indirect
 	github.com/nats-io/nkeys v0.1.4 // indirect
 	github.com/nats-io/nuid v1.0.1 // indirect
 	golang.org/x/crypto v0.0.0-20200323165209-0ec3e9974c59 // indirect
